@@ -161,6 +161,9 @@ func c08Deviations() []reqDev {
 	add("cose-ext-integer-keys", "ext", "cose", func(r *reqSpec) {
 		r.ext = []envenc.ExtAttr{{Key: int64(100), Critical: true, Value: "pos"}, {Key: int64(-5), Critical: false, Value: "neg"}, {Key: int64(15), Critical: true, Value: 7}}
 	})
+	// the largest integer label an envelope can carry and be read back (labels above int64 are an invalid request: C16)
+	add("cose-ext-key-max-int64-as-uint64", "ext", "cose", func(r *reqSpec) { r.ext = []envenc.ExtAttr{{Key: uint64(1)<<63 - 1, Critical: true, Value: "2^63-1"}} })
+	add("cose-ext-key-min-int64", "ext", "cose", func(r *reqSpec) { r.ext = []envenc.ExtAttr{{Key: int64(-1) << 63, Critical: false, Value: "-2^63"}} })
 	add("cose-ext-int-typed-key", "ext", "cose", func(r *reqSpec) { r.ext = []envenc.ExtAttr{{Key: 1000, Critical: true, Value: "int-typed"}} })
 	add("cose-ext-mixed-integer-types-and-text", "ext", "cose", func(r *reqSpec) {
 		r.ext = []envenc.ExtAttr{{Key: 107, Critical: true, Value: "int"}, {Key: uint16(109), Critical: true, Value: "uint16"}, {Key: int64(111), Critical: false, Value: "int64"}, {Key: "io.example.text", Critical: true, Value: "text"}, {Key: int8(-3), Critical: true, Value: "int8"}}
